@@ -595,6 +595,10 @@ var vtransforms = []vtransform{
 		}
 		return []byte(sb.String())
 	}},
+	{"em-spaces-all", "C05", true, func(r *vrand, in []byte) []byte {
+		// every blank a three-byte em space: in a text of several read chunks some character straddles a chunk boundary
+		return bytes.ReplaceAll(in, []byte(" "), []byte("\u2003"))
+	}},
 	{"double-spaces", "C05", true, func(r *vrand, in []byte) []byte { return bytes.ReplaceAll(in, []byte(" "), []byte("  ")) }},
 	{"blank-lines", "C05", false, func(r *vrand, in []byte) []byte {
 		return vmapLines(in, func(i int, l string) string {
@@ -849,6 +853,10 @@ func vmetaInputs(r *vrand, n int) []vinput {
 		if vthorough() || i%3 == int(vseed()%3) || i < 2 || i >= 6 {
 			out = append(out, vinput{id: fmt.Sprintf("xc%d", i), data: d.data})
 		}
+	}
+	// a text of many read chunks (the tokenizer reads 1 KiB at a time)
+	for _, d := range vnamed("License/GPL-2.0/a.txt") {
+		out = append(out, vinput{id: "xl0", data: d.data})
 	}
 	// quoted list markers, quoted words and a quote behind a hyphen at the end of a line: what follows a
 	// marker's closing dot or a word's trailing hyphen decides whether it is a marker / a split word
